@@ -387,6 +387,30 @@ func main() {
 	out.Def("revInitDepths", "List String", xlib.LeanStrList(initDepths))
 	out.Def("revChildCond", "String", xlib.LeanStr(childCond))
 
+	// buildRevdeps (what the reverse map is), the initialisation in FindRevdeps (roots at depth 0, the child filter), the
+	// lookup in findRevdeps and the entry point Deps (one shared done map, start level 0): statement by statement
+	brv := rf.Func("buildRevdeps")
+	bp := paramNames(brv)
+	out.Def("buildRevdeps", "List String", xlib.LeanStrList(stmts(rf, brv, map[string]string{bp[0]: "GRAPH", bp[1]: "SUBREPOS"})))
+	fp := paramNames(ff)
+	out.Def("findRevdepsEntry", "List String", xlib.LeanStrList(stmts(rf, ff, map[string]string{fp[0]: "STATE", fp[1]: "ROOTS", fp[2]: "HIDDEN", fp[3]: "FOLLOW", fp[4]: "SUBREPOS", fp[5]: "DEPTH"})))
+	var lookups []string
+	for _, st := range loop.Body.List {
+		if as, ok := st.(*ast.AssignStmt); ok && as.Tok == token.DEFINE {
+			lookups = append(lookups, norm(rf, as, rroles))
+		}
+	}
+	out.Def("revLookup", "List String", xlib.LeanStrList(lookups))
+	de := df.Func("Deps")
+	dep := paramNames(de)
+	var dstm []string
+	for _, st := range stmts(df, de, map[string]string{dep[0]: "OUT", dep[1]: "STATE", dep[2]: "ROOTS", dep[3]: "HIDDEN", dep[4]: "LIMIT", dep[5]: "DOT"}) {
+		if !strings.HasPrefix(st, "if DOT") { // the dot-format header / footer
+			dstm = append(dstm, st)
+		}
+	}
+	out.Def("depsEntry", "List String", xlib.LeanStrList(dstm))
+
 	// ------------------------------------------------------------ somepath
 	sf := xlib.Parse("src/query/somepath.go")
 	sp := sf.Func("somePath")
@@ -482,6 +506,113 @@ func main() {
 	})
 	out.Def("spMemoKey", "String", xlib.LeanStr(memoKey))
 	out.Write()
+}
+
+// withLocals extends roles with positional names v1, v2, … for every identifier declared inside fn (by :=,
+// range or if-init), in source order, so that renaming a local does not change the facts.
+func withLocals(fn *ast.FuncDecl, roles map[string]string) map[string]string {
+	return withLocalsNode(fn.Body, roles)
+}
+
+// withLocalsNode numbers the locals declared inside one statement (numbering restarts per statement, so a rename
+// in one loop does not shift the names in another).
+// withLocalsNode numbers the locals declared inside one statement (numbering restarts per statement, so a rename
+// in one loop does not shift the names in another).
+func withLocalsNode(body ast.Node, roles map[string]string) map[string]string {
+	out := map[string]string{}
+	for k, v := range roles {
+		out[k] = v
+	}
+	k := 0
+	decl := func(e ast.Expr) {
+		if id, ok := e.(*ast.Ident); ok && id.Name != "_" {
+			if _, seen := out[id.Name]; !seen {
+				k++
+				out[id.Name] = "v" + string(rune('0'+k/10)) + string(rune('0'+k%10))
+			}
+		}
+	}
+	ast.Inspect(body, func(n ast.Node) bool {
+		switch x := n.(type) {
+		case *ast.AssignStmt:
+			if x.Tok == token.DEFINE {
+				for _, l := range x.Lhs {
+					decl(l)
+				}
+			}
+		case *ast.RangeStmt:
+			if x.Tok == token.DEFINE {
+				if x.Key != nil {
+					decl(x.Key)
+				}
+				if x.Value != nil {
+					decl(x.Value)
+				}
+			}
+		}
+		return true
+	})
+	return out
+}
+
+// callsTo lists, in source order, the normalised calls to function `name` inside n.
+func isLogCall(s ast.Stmt) bool {
+	es, ok := s.(*ast.ExprStmt)
+	if !ok {
+		return false
+	}
+	c, ok := es.X.(*ast.CallExpr)
+	if !ok {
+		return false
+	}
+	sel, ok := c.Fun.(*ast.SelectorExpr)
+	return ok && ident(sel.X) == "log"
+}
+
+func stmts(f *xlib.File, fn *ast.FuncDecl, roles0 map[string]string) []string {
+	// locals declared at the top level of the function body get stable names F1, F2, … (they are used across
+	// statements); locals of nested blocks are numbered per statement
+	roles := map[string]string{}
+	for k, v := range roles0 {
+		roles[k] = v
+	}
+	k := 0
+	name := func(e ast.Expr) {
+		if id, ok := e.(*ast.Ident); ok && id.Name != "_" {
+			if _, seen := roles[id.Name]; !seen {
+				k++
+				roles[id.Name] = "F" + string(rune('0'+k))
+			}
+		}
+	}
+	for _, s := range fn.Body.List {
+		switch st := s.(type) {
+		case *ast.AssignStmt:
+			if st.Tok == token.DEFINE {
+				for _, l := range st.Lhs {
+					name(l)
+				}
+			}
+		case *ast.DeclStmt:
+			if gd, ok := st.Decl.(*ast.GenDecl); ok {
+				for _, sp := range gd.Specs {
+					if vs, ok := sp.(*ast.ValueSpec); ok {
+						for _, n := range vs.Names {
+							name(n)
+						}
+					}
+				}
+			}
+		}
+	}
+	var out []string
+	for _, s := range fn.Body.List {
+		if isLogCall(s) {
+			continue
+		}
+		out = append(out, norm(f, s, withLocalsNode(s, roles)))
+	}
+	return out
 }
 
 func selCall0(n ast.Node) (ast.Expr, string, []ast.Expr) {
